@@ -73,12 +73,14 @@ def VState.conj (st : VState) : Option Bool → VState
   | some true => { groups := st.groups ++ [QNode.newBoolean .and st.group], group := [] }
   | _ => st
 
-/-- the end of `visit_query` -/
-def finishQuery (st : VState) : QNode :=
-  let node := QNode.newBoolean .or (st.groups ++ [QNode.newBoolean .and st.group])
-  match node with
+/-- "if the node is a negated MatchAllDocs, return MatchNoDocs" -/
+def foldNotAll : QNode → QNode
   | .neg (.leaf .matchAll) => .leaf .matchNone
   | n => n
+
+/-- the end of `visit_query` -/
+def finishQuery (st : VState) : QNode :=
+  foldNotAll (QNode.newBoolean .or (st.groups ++ [QNode.newBoolean .and st.group]))
 
 mutual
   /-- `visit_clause` -/
